@@ -32,7 +32,7 @@ RULE = (
     "overrides the registered method OR the second operand is not a Tensor. Distinct by hash of (function, order, form, "
     "class path, operand kind, arguments, shapes)."
 )
-BUDGET = {"quick": 1200, "thorough": 4000}
+BUDGET = {"quick": 2000, "thorough": 4000}
 SHARDS = 16
 ASSUMPTIONS = [
     "generated operands are valid for the dense torch function (the invalid-shape domain belongs to C19)",
@@ -192,6 +192,9 @@ def _family(name):
 
 
 def _recipe_of(draw, dom, m, n, batch, dt, depth, head=None, extra=()):
+    if dt != "f32":
+        # permutation operators carry no floating data and declare float32: they pair only with float32 operands
+        extra = tuple(extra) + ("Permutation", "TransposePermutation")
     cfg = gen.Cfg(dt=dt, exclude=_exclusions(extra))
     d = max(depth, 2)
     if head is not None and head in gen._applicable(cfg, dom, m, n, tuple(batch), d):
@@ -199,9 +202,13 @@ def _recipe_of(draw, dom, m, n, batch, dt, depth, head=None, extra=()):
     return gen.gen(draw, cfg, dom, m, n, tuple(batch), draw(st.integers(1, depth)))
 
 
-def _op(draw, dom, depth, heads=None, batches=None, max_dim=5, square=None, extra=()):
-    """Head-first operator recipe of the requested domain."""
+def _op(draw, dom, depth, heads=None, batches=None, max_dim=5, square=None, extra=(), prefer=None):
+    """Head-first operator recipe of the requested domain (`prefer`: a head whose class overrides the method under test)."""
     ex = _exclusions(extra)
+    if prefer is not None and prefer not in extra:
+        r = _op_pref(draw, dom, depth, prefer, batches, max_dim, ex)
+        if r is not None:
+            return r
     if heads is not None:
         heads = [h for h in heads if h not in extra]
     if heads is not None:
@@ -209,6 +216,76 @@ def _op(draw, dom, depth, heads=None, batches=None, max_dim=5, square=None, extr
     if square and dom == "any":
         return draw(gen.recipes("any", max_depth=depth, max_dim=max_dim, exclude=ex, batches=batches, square=True, head=sorted(gen.PREDS)))
     return draw(gen.head_first_recipes(dom, max_depth=depth, max_dim=max_dim, exclude=ex, batches=batches))
+
+
+def _op_pref(draw, dom, depth, prefer, batches, max_dim, ex):
+    dt = draw(st.sampled_from(["f64", "f64", "f32"]))
+    batch = tuple(draw(st.sampled_from(batches or SMALL_BATCHES)))
+    cfg = gen.Cfg(dt=dt, exclude=ex)
+    if not cfg.ok(prefer):
+        return None
+    d = max(depth, 2)
+    sizes = [n for n in (1, 2, 3, 4, 4, 5, 6) if n <= max(max_dim, 4) + 1 and prefer in gen._applicable(cfg, dom, n, n, batch, d)]
+    if not sizes:
+        return None
+    n = draw(st.sampled_from(sizes))
+    return gen.call_maker(prefer, draw, cfg, dom, n, n, batch, d)
+
+
+# library class -> recipe heads that build an instance of it (targets for the per-override quota)
+CLASS_HEADS = {
+    "DenseLinearOperator": ["Dense"],
+    "DiagLinearOperator": ["Diag"],
+    "ConstantDiagLinearOperator": ["ConstantDiag"],
+    "IdentityLinearOperator": ["Identity"],
+    "ZeroLinearOperator": ["Zero"],
+    "ToeplitzLinearOperator": ["Toeplitz"],
+    "TriangularLinearOperator": ["TriT", "TriBase"],
+    "CholLinearOperator": ["Chol"],
+    "RootLinearOperator": ["Root"],
+    "LowRankRootLinearOperator": ["LowRankRoot"],
+    "KroneckerProductLinearOperator": ["Kronecker"],
+    "KroneckerProductTriangularLinearOperator": ["KroneckerTri"],
+    "KroneckerProductDiagLinearOperator": ["KroneckerDiag"],
+    "KroneckerProductAddedDiagLinearOperator": ["KroneckerAddedDiag"],
+    "SumKroneckerLinearOperator": ["SumKronecker"],
+    "AddedDiagLinearOperator": ["AddedDiag"],
+    "LowRankRootAddedDiagLinearOperator": ["LowRankRootAddedDiag"],
+    "SumLinearOperator": ["Sum"],
+    "PsdSumLinearOperator": ["PsdSum"],
+    "MatmulLinearOperator": ["Matmul"],
+    "MulLinearOperator": ["Mul"],
+    "ConstantMulLinearOperator": ["ConstantMul"],
+    "BlockDiagLinearOperator": ["BlockDiag"],
+    "BlockInterleavedLinearOperator": ["BlockInterleaved"],
+    "SumBatchLinearOperator": ["SumBatch"],
+    "BatchRepeatLinearOperator": ["BatchRepeat"],
+    "CatLinearOperator": ["Cat"],
+    "InterpolatedLinearOperator": ["Interpolated"],
+    "MaskedLinearOperator": ["Masked"],
+    "AbstractPermutationLinearOperator": ["Permutation", "TransposePermutation"],
+    "PermutationLinearOperator": ["Permutation"],
+    "TransposePermutationLinearOperator": ["TransposePermutation"],
+    "KernelLinearOperator": ["Kernel"],
+    "KeOpsLinearOperator": ["KeOps"],
+}
+
+
+def override_heads(name, order):
+    """Recipe heads of the classes that define their own version of the method registered for this cell (read now)."""
+    from linear_operator import operators as O
+
+    first, second = tables()
+    tab = first if order == "first" else second
+    if name not in tab:
+        return []
+    mname = tab[name][1]
+    LO = _lo().LinearOperator
+    out = []
+    for _, k in sorted(vars(O).items()):
+        if isinstance(k, type) and issubclass(k, LO) and k is not LO and mname in k.__dict__:
+            out.extend(CLASS_HEADS.get(k.__name__, []))
+    return sorted(set(out))
 
 
 def _tensor_like(draw, shape, dt, lo=-16, hi=16, nonzero=False):
@@ -238,15 +315,22 @@ def _forms(name, order):
     return ["func"]
 
 
-def g_unary(draw, name, order, depth):
+def g_unary(draw, name, order, depth, prefer=None):
     b = short(name)
     u = draw(st.integers(0, 9))
     extra = ("Identity",) if (b == "exp" and is_open("identity_exp")) else ()
-    if u < 4:
-        dom = "pd" if b in ("log", "sqrt") or draw(st.booleans()) else "any"
+    pos = b in ("log", "sqrt")
+    if prefer is not None:
+        if prefer in TRI_HEADS:
+            dom = draw(st.sampled_from(["tril+", "triu+"] if pos else ["tril", "triu", "tril+", "triu+"]))
+        else:
+            dom = "pd" if pos or draw(st.booleans()) else "any"
+        r = _op(draw, dom, depth, extra=extra, prefer=prefer)
+    elif u < 4:
+        dom = "pd" if pos or draw(st.booleans()) else "any"
         r = _op(draw, dom, depth, heads=DIAG_HEADS, extra=extra)
     elif u < 6:
-        dom = draw(st.sampled_from(["tril+", "triu+"] if b in ("log", "sqrt") else ["tril", "triu", "tril+", "triu+"]))
+        dom = draw(st.sampled_from(["tril+", "triu+"] if pos else ["tril", "triu", "tril+", "triu+"]))
         r = _op(draw, dom, depth, heads=TRI_HEADS, extra=extra)
     else:
         r = _op(draw, "any", depth, extra=extra)
@@ -256,7 +340,7 @@ def g_unary(draw, name, order, depth):
     return {"kind": "reg", "fn": name, "order": order, "form": "func", "recipe": r, "kw": kw}
 
 
-def g_arith(draw, name, order, depth):
+def g_arith(draw, name, order, depth, prefer=None):
     b = short(name)
     form = draw(st.sampled_from(_forms(name, order)))
     kinds = ["tensor", "tensor", "tensor", "tensor"]
@@ -286,7 +370,7 @@ def g_arith(draw, name, order, depth):
         r = _recipe_of(draw, dom, n, n, batch, dt, depth, head=ha)
         other = {"k": "op", "recipe": _recipe_of(draw, dom, n, n, gen.sub_batch(draw, batch), dt, depth, head=hb)}
     else:
-        r = _op(draw, "any", depth)
+        r = _op(draw, "any", depth, prefer=prefer)
         shp = refmodel.shape(r)
         dt = R.dtype_of(r)
         if kind == "scalar" and b in ("add", "sub") and r["op"] == "Zero":
@@ -316,9 +400,9 @@ def g_arith(draw, name, order, depth):
     return {"kind": "reg", "fn": name, "order": order, "form": form, "recipe": r, "other": other, "kw": kw}
 
 
-def g_matmul(draw, name, order, depth):
+def g_matmul(draw, name, order, depth, prefer=None):
     form = draw(st.sampled_from(_forms(name, order)))
-    if order == "first" and draw(st.integers(0, 3)) == 0:
+    if order == "first" and prefer is None and draw(st.integers(0, 3)) == 0:
         pair = draw(st.sampled_from(SUBCLASS_PAIRS + [None] * 6))
         n = draw(st.sampled_from([1, 2, 3, 4, 4, 6]))
         batch = draw(st.sampled_from(SMALL_BATCHES))
@@ -331,7 +415,7 @@ def g_matmul(draw, name, order, depth):
             r = _recipe_of(draw, "any", draw(st.integers(1, 5)), n, batch, dt, depth, head=draw(st.sampled_from(sorted(gen.PREDS))))
             o = _recipe_of(draw, "any", n, draw(st.integers(1, 4)), gen.sub_batch(draw, batch), dt, depth, head=draw(st.sampled_from(sorted(gen.PREDS))))
         return {"kind": "reg", "fn": name, "order": order, "form": form, "recipe": r, "other": {"k": "op", "recipe": o}, "kw": {}}
-    r = _op(draw, "any", depth)
+    r = _op(draw, "any", depth, prefer=prefer)
     shp = refmodel.shape(r)
     dt = R.dtype_of(r)
     if order == "second":
@@ -343,8 +427,8 @@ def g_matmul(draw, name, order, depth):
     return {"kind": "reg", "fn": name, "order": order, "form": form, "recipe": r, "other": other, "kw": {}}
 
 
-def g_isclose(draw, name, order, depth):
-    r = _op(draw, "any", depth)
+def g_isclose(draw, name, order, depth, prefer=None):
+    r = _op(draw, "any", depth, prefer=prefer)
     shp = refmodel.shape(r)
     dt = R.dtype_of(r)
     kw = {}
@@ -367,8 +451,8 @@ def g_isclose(draw, name, order, depth):
     return {"kind": "reg", "fn": name, "order": order, "form": "func", "recipe": r, "other": other, "kw": kw}
 
 
-def g_diagonal(draw, name, order, depth):
-    r = _op(draw, "any", depth, square=True)
+def g_diagonal(draw, name, order, depth, prefer=None):
+    r = _op(draw, "any", depth, square=True, prefer=prefer)
     nd = len(refmodel.shape(r))
     forms = ["negdims", "negdims", "negdims_swapped", "offset_negdims", "posdims"]
     if nd == 2:
@@ -392,12 +476,12 @@ def g_diagonal(draw, name, order, depth):
     return {"kind": "reg", "fn": name, "order": order, "form": "func", "recipe": r, "kw": kw, "argform": af}
 
 
-def g_dim(draw, name, order, depth):
+def g_dim(draw, name, order, depth, prefer=None):
     fam = _family(name)
     if fam == "prod":
-        r = _op(draw, draw(st.sampled_from(["pd", "psd"])), depth, batches=NONEMPTY_BATCHES, max_dim=4)
+        r = _op(draw, draw(st.sampled_from(["pd", "psd"])), depth, batches=NONEMPTY_BATCHES, max_dim=4, prefer=prefer)
     else:
-        r = _op(draw, "any", depth)
+        r = _op(draw, "any", depth, prefer=prefer)
     shp = refmodel.shape(r)
     nd = len(shp)
     kw = {}
@@ -443,8 +527,8 @@ def g_dim(draw, name, order, depth):
     return {"kind": "reg", "fn": name, "order": order, "form": "func", "recipe": r, "kw": kw}
 
 
-def g_plain(draw, name, order, depth):
-    return {"kind": "reg", "fn": name, "order": order, "form": "func", "recipe": _op(draw, "any", depth), "kw": {}}
+def g_plain(draw, name, order, depth, prefer=None):
+    return {"kind": "reg", "fn": name, "order": order, "form": "func", "recipe": _op(draw, "any", depth, prefer=prefer), "kw": {}}
 
 
 NO_MUL = ("Mul",)  # elementwise products of operators are *defined* through (jittered) root decompositions: C02/C06
@@ -453,31 +537,35 @@ NO_MUL = ("Mul",)  # elementwise products of operators are *defined* through (ji
 ADDED_DIAG = ("AddedDiag", "LowRankRootAddedDiag", "KroneckerAddedDiag")
 
 
-def _pd_op(draw, depth, psd_ok=False, tri=True, extra=()):
+def _pd_op(draw, depth, psd_ok=False, tri=True, extra=(), prefer=None):
     u = draw(st.integers(0, 9))
-    if tri and u == 0:
-        return _op(draw, draw(st.sampled_from(["tril+", "triu+"])), depth, heads=TRI_HEADS + ["Diag"], max_dim=4, extra=NO_MUL + tuple(extra))
+    ex = NO_MUL + tuple(extra)
+    if tri and (u == 0 or prefer in TRI_HEADS):
+        # (logdet / solve assume a symmetric positive definite operator; the triangular classes override them)
+        r = _op(draw, draw(st.sampled_from(["tril+", "triu+"])), depth, heads=TRI_HEADS + ["Diag"], max_dim=4, extra=ex, prefer=prefer)
+        if r["op"] in ("Tri", "KroneckerTri") or gen.is_diag_instance(r):
+            return r
     dom = "psd" if (psd_ok and u < 5) else "pd"
-    return _op(draw, dom, depth, max_dim=4, extra=NO_MUL + tuple(extra))
+    return _op(draw, dom, depth, max_dim=4, extra=ex, prefer=prefer)
 
 
-def g_direct(draw, name, order, depth):
+def g_direct(draw, name, order, depth, prefer=None):
     fam = _family(name)
     kw = {}
     other = None
     if fam in ("logdet", "cholesky"):
-        r = _pd_op(draw, depth, tri=(fam == "logdet"))
+        r = _pd_op(draw, depth, tri=(fam == "logdet"), prefer=prefer)
         if fam == "cholesky":
             u = draw(st.integers(0, 2))
             if u:
                 kw["upper"] = u == 2
     elif fam in ("eigh", "eigvalsh", "svd"):
-        r = _pd_op(draw, depth, psd_ok=True, tri=False)
+        r = _pd_op(draw, depth, psd_ok=True, tri=False, prefer=prefer)
     elif fam == "solve":
-        r = _pd_op(draw, depth)
+        r = _pd_op(draw, depth, prefer=prefer)
     elif fam == "solve_triangular":
         dom = draw(st.sampled_from(["tril+", "triu+"]))
-        r = _op(draw, dom, depth, heads=(TRI_HEADS + ["Diag", "ConstantDiag", "KroneckerDiag"]) if draw(st.integers(0, 4)) else None, max_dim=4, extra=NO_MUL)
+        r = _op(draw, dom, depth, heads=(TRI_HEADS + ["Diag", "ConstantDiag", "KroneckerDiag"]) if draw(st.integers(0, 4)) else None, max_dim=4, extra=NO_MUL, prefer=prefer)
         if is_open("constdiag_solve_triangular") and _t_constdiag({"kind": "reg", "fn": name, "recipe": r}):
             shp = refmodel.shape(r)
             r = _recipe_of(draw, dom, shp[-1], shp[-1], shp[:-2], R.dtype_of(r), 1, head="Diag")
@@ -491,16 +579,22 @@ def g_direct(draw, name, order, depth):
                 del kw["left"]
     elif fam == "inverse":
         u = draw(st.integers(0, 9))
+        if prefer in TRI_HEADS + DIAG_HEADS:
+            u = 0
+        elif prefer in ("Permutation", "TransposePermutation"):
+            u = 4
+        elif prefer is not None:
+            u = 9
         if u < 4:
-            r = _op(draw, draw(st.sampled_from(["tril+", "triu+"])), depth, heads=TRI_HEADS + DIAG_HEADS, max_dim=4, extra=NO_MUL)
+            r = _op(draw, draw(st.sampled_from(["tril+", "triu+"])), depth, heads=TRI_HEADS + DIAG_HEADS, max_dim=4, extra=NO_MUL, prefer=prefer)
         elif u < 5:
             r = _recipe_of(draw, "any", (n_ := draw(st.integers(1, 4))), n_, draw(st.sampled_from(SMALL_BATCHES)), "f32", depth, head="Permutation")
             if r["op"] != "Permutation":
                 r = _op(draw, "pd", depth, max_dim=4, extra=NO_MUL)
         else:
-            r = _op(draw, "pd", depth, heads=["Chol", "Kronecker", "Diag", "KroneckerDiag", "ConstantDiag", "Identity"] if u < 8 else None, max_dim=4, extra=NO_MUL)
+            r = _op(draw, "pd", depth, heads=["Chol", "Kronecker", "Diag", "KroneckerDiag", "ConstantDiag", "Identity"] if u < 8 else None, max_dim=4, extra=NO_MUL, prefer=prefer)
     else:
-        r = _pd_op(draw, depth)
+        r = _pd_op(draw, depth, prefer=prefer)
     if fam in ("solve", "solve_triangular"):
         shp = refmodel.shape(r)
         dt = R.dtype_of(r)
@@ -670,7 +764,13 @@ def cases(draw, tier):
     if u < 4:
         return g_unreg(draw, depth, sampled=True)
     name, order = draw(st.sampled_from(cells()))
-    return GENS[_family(name)](draw, name, order, depth)
+    prefer = None
+    if draw(st.integers(0, 2)) == 0:
+        # per-override quota: a class that defines its own version of the registered method
+        ov = override_heads(name, order)
+        if ov:
+            prefer = draw(st.sampled_from(ov))
+    return GENS[_family(name)](draw, name, order, depth, prefer)
 
 
 def strategy(tier):
@@ -1123,7 +1223,7 @@ def _check_reg(case, allow_blame=True):
     name, order = case["fn"], case["order"]
     r = case["recipe"]
     head = r["op"]
-    labels = ["cell:%s|%s" % (name, order), "head:" + head, "fc:%s|%s|%s" % (name, order, head), "form:" + case.get("form", "func")]
+    labels = ["cell:%s|%s" % (name, order), "head:" + head, "form:" + case.get("form", "func")]
 
     def fail(symptom, detail):
         raise Violation("C15|%s|%s|%s|%s" % (name, order, head, symptom), "%s  [class path %s, form %s, kw %s]" % (detail, R.class_path(r), case.get("form"), case.get("kw")))
@@ -1192,20 +1292,22 @@ def _check_reg(case, allow_blame=True):
             rerouted = True
             labels.append("route:second_operand_is_subclass_instance")
     labels += ["operand:" + okind, "overrides:%s" % bool(overrides), "dtype:" + R.dtype_of(r), "batch:%d" % (len(refmodel.shape(r)) - 2)]
+    if overrides:
+        defcls = next((k for k in cls.__mro__ if info["mname"] in k.__dict__), cls)
+        labels.append("ovr:%s|%s|%s.%s" % (name, order, defcls.__name__, info["mname"]))
     if case.get("argform"):
         labels.append("diagonal_args:" + case["argform"])
     out["nontrivial"] = bool(order == "second" or overrides or okind in ("scalar", "op"))
 
     # ---- leg 1: torch.f against the method resolved by name on the subclass
-    leg1 = True
+    leg1 = not rerouted
     if not ok_m:
         if ok_l and not rerouted:
             fail("returned-but-method-raised:" + type(res_m).__name__, "torch function returned %s while %s.%s raised %r" % (_tsig(res_l), cls.__name__, info["mname"], res_m))
         if ok_l:
             # torch handed the call to the reflected method of the second operand (an instance of a subclass of the first
             # one's class), which served it although the first operand's own method fails: judged by the dense leg only
-            leg1 = False
-            labels.append("leg1:skipped(reflected method served the call)")
+            labels.append("leg1:reflected method served the call, own method raises")
         else:
             if type(res_l) is not type(res_m) and not rerouted:
                 fail("exc-mismatch:%s-vs-%s" % (type(res_l).__name__, type(res_m).__name__), "torch function raised %r, %s.%s raised %r" % (res_l, cls.__name__, info["mname"], res_m))
@@ -1400,8 +1502,18 @@ def gaps(labels):
             out.append("table entry never exercised: %s (%s argument)" % (name, order))
         elif not labels.get("fo:%s|%s|value" % (name, order)):
             out.append("table entry never value-checked (every case declined / raised / no argument generator): %s (%s argument)" % (name, order))
-    if _family_gaps():
-        out.extend(_family_gaps())
+    out.extend(_family_gaps())
+    # subclass overrides of the registered methods (the quantifier: "subclass overrides are resolved by method name")
+    from linear_operator import operators as O
+
+    LO = _lo().LinearOperator
+    first, second = tables()
+    for order, tab in (("first", first), ("second", second)):
+        for name, (_, mname) in sorted(tab.items()):
+            for cname, k in sorted(vars(O).items()):
+                if isinstance(k, type) and issubclass(k, LO) and k is not LO and mname in k.__dict__:
+                    if not labels.get("ovr:%s|%s|%s.%s" % (name, order, k.__name__, mname)):
+                        out.append("subclass override never exercised: %s.%s via %s (%s argument)" % (k.__name__, mname, name, order))
     return out
 
 
